@@ -9,10 +9,10 @@ namespace Sodium
 
 /-! ### xorBytes -/
 
-theorem xorBytes_length : ∀ a b : Bytes, (xorBytes a b).length = min a.length b.length
+theorem ss_xorBytes_length : ∀ a b : Bytes, (xorBytes a b).length = min a.length b.length
   | [], _ => by simp [xorBytes]
   | _ :: _, [] => by simp [xorBytes]
-  | x :: xs, y :: ys => by simp [xorBytes, xorBytes_length xs ys, Nat.succ_min_succ]
+  | x :: xs, y :: ys => by simp [xorBytes, ss_xorBytes_length xs ys, Nat.succ_min_succ]
 
 /-- XOR with the same keystream twice is the identity -/
 theorem xorBytes_cancel : ∀ a k : Bytes, a.length ≤ k.length → xorBytes (xorBytes a k) k = a
@@ -63,8 +63,8 @@ theorem rekey_shape (P : Prims) (hks : ∀ k n ic len, (P.ks k n ic len).length 
   have hi := inonce_length s hn
   simp only [rekey]
   constructor
-  · simp [xorBytes_length, hks, hk, hi]
-  · simp [xorBytes_length, hks, hk, hi]
+  · simp [ss_xorBytes_length, hks, hk, hi]
+  · simp [ss_xorBytes_length, hks, hk, hi]
 
 theorem advance_shape (P : Prims) (hks : ∀ k n ic len, (P.ks k n ic len).length = len) (s : State)
     (hk : s.k.length = 32) (hn : s.nonce.length = 12) (mac : Bytes) (hm : mac.length = 16) (tag : UInt8) :
@@ -72,7 +72,7 @@ theorem advance_shape (P : Prims) (hks : ∀ k n ic len, (P.ks k n ic len).lengt
   have hi := inonce_length s hn
   have hc := counter_length s hn
   have h1 : (sodium_increment_generic (counter s) ++ xorBytes (inonce s) (mac.take 8)).length = 12 := by
-    simp [sodium_increment_generic, incLoop_length, xorBytes_length, hi, hc, hm]
+    simp [sodium_increment_generic, incLoop_length, ss_xorBytes_length, hi, hc, hm]
   simp only [advance]
   split
   · exact rekey_shape P hks _ hk h1
@@ -93,7 +93,7 @@ theorem pull_push (P : Prims) (hks : ∀ k n ic len, (P.ks k n ic len).length = 
   have hb1 := block_take1_length tag (zeros 63) (P.ks s.k s.nonce 1 64) hk1
   obtain ⟨hr1, hr2⟩ := block_roundtrip tag (zeros 63) (P.ks s.k s.nonce 1 64) hk1
   have hc : (xorBytes m (P.ks s.k s.nonce 2 m.length)).length = m.length := by
-    simp [xorBytes_length, hks]
+    simp [ss_xorBytes_length, hks]
   have hdec : xorBytes (xorBytes m (P.ks s.k s.nonce 2 m.length)) (P.ks s.k s.nonce 2 m.length) = m :=
     xorBytes_cancel _ _ (by rw [hks]; omega)
   simp only [push]
